@@ -129,6 +129,12 @@ func ReadUint16Slice(r Reader, c []uint16) (n int64, err error) {
 		size = len(c) << 1
 	}
 
+	// Whole elements only: what is decoded must be what is discarded, and a reader
+	// that cannot provide one more element has reached the end of the stream.
+	if size -= size & 1; size == 0 {
+		return 0, io.ErrUnexpectedEOF
+	}
+
 	// Then returns the written bytes
 	if slice, err = r.Peek(size); err != nil {
 		return int64(len(slice)), err
@@ -204,6 +210,12 @@ func ReadUint32Slice(r Reader, c []uint32) (n int64, err error) {
 		size = len(c) << 2
 	}
 
+	// Whole elements only: what is decoded must be what is discarded, and a reader
+	// that cannot provide one more element has reached the end of the stream.
+	if size -= size & 3; size == 0 {
+		return 0, io.ErrUnexpectedEOF
+	}
+
 	// Then returns the written bytes
 	if slice, err = r.Peek(size); err != nil {
 		return int64(len(slice)), err
@@ -277,6 +289,12 @@ func ReadUint64Slice(r Reader, c []uint64) (n int64, err error) {
 	size := r.Size()
 	if len(c)<<3 < size {
 		size = len(c) << 3
+	}
+
+	// Whole elements only: what is decoded must be what is discarded, and a reader
+	// that cannot provide one more element has reached the end of the stream.
+	if size -= size & 7; size == 0 {
+		return 0, io.ErrUnexpectedEOF
 	}
 
 	// Then returns the written bytes
